@@ -438,6 +438,22 @@ impl<'a> Tx<'a> {
                 let a = self.expr(&c.args[0]);
                 return format!("Some({})", a);
             }
+            "TreeNode::new" if self.ops => {
+                // R42: a TreeNode built as a value and boxed later is allocated here: (hash, key, value); links start null
+                let mut args: Vec<String> = vec![];
+                for a in c.args.iter().take(3) {
+                    let v = self.expr(a);
+                    args.push(self.hoist(v));
+                }
+                return format!("h.alloc_tree_node({})", args.join(", "));
+            }
+            "BinEntry::Tree" | "BinEntry::TreeNode" | "BinEntry::Node" if self.ops && c.args.len() == 1 => {
+                return self.expr(&c.args[0]);
+            }
+            "TreeBin::new" if self.ops => {
+                let a = self.expr(&c.args[0]);
+                return format!("treebin_new(h, {})", a);
+            }
             "Shared::boxed" if self.ops => {
                 // R28: Shared::boxed(BinEntry::Node(Node::new(h, k, v)), ..) / Node::with_next(h, k, v, next) -> h.alloc_node(..);
                 //      Shared::boxed(<value>, ..) -> the value id itself
@@ -462,6 +478,14 @@ impl<'a> Tx<'a> {
                 if let Some(a0) = c.args.first() {
                     if let syn::Expr::Path(_) = a0 {
                         return self.expr(a0);
+                    }
+                    if let syn::Expr::Call(be) = a0 {
+                        if let syn::Expr::Path(bp) = &*be.func {
+                            let ps = path_str(&bp.path);
+                            if (ps == "BinEntry::TreeNode" || ps == "BinEntry::Tree") && be.args.len() == 1 {
+                                return self.expr(&be.args[0]);
+                            }
+                        }
                     }
                 }
                 self.err("Shared::boxed of an unknown object", c.span());
